@@ -142,7 +142,13 @@ def shiftneg_variant():
     if sev["shiftNegative"] == "Severity::error":
         return "0"
     if sev["shiftNegative"] == "(!value || value->errorSeverity()) ? Severity::error : Severity::warning":
-        return "1"
+        # ec2c7f5: the call site gates the picked value with Settings::isEnabled(value, false)
+        c = re.search(r"void CheckOther::checkNegativeBitwiseShift\(\)\s*\{(.*?)\n\}", text, re.S)
+        site = re.sub(r"\s+", " ", re.sub(r"//[^\n]*", "", c.group(1))) if c else ""
+        want = ("if (portability && getNegativeValue(tok->astOperand1(), *mSettings)) negativeBitwiseShiftError(tok, 1); "
+                "else if (const ValueFlow::Value *value = getNegativeValue(tok->astOperand2(), *mSettings)) { "
+                "if (mSettings->isEnabled(value, false)) negativeBitwiseShiftError(tok, 2, value); }")
+        return "1" if want in site else None
     return None
 
 
@@ -300,8 +306,8 @@ def run_sev(ctx, res, drv, exe, n):
     # the model is the repaired code (4fa5b48, 43eccce); the shape as found, or any other shape, leaves the obligation undischarged
     v1, v2 = shiftneg_variant(), indexvec_variant()
     ok1 = res.oblig("translate:negativeBitwiseShiftError-graded-by-errorSeverity", v1 == "1", "translation",
-                    "" if v1 == "1" else "lib/checkother.cpp: CheckOther::negativeBitwiseShiftError does not grade the shift count with "
-                    "value->errorSeverity() (%s)" % ("it reports Severity::error unconditionally again: F04a" if v1 == "0" else "unrecognised shape"))
+                    "" if v1 == "1" else "lib/checkother.cpp: checkNegativeBitwiseShift / negativeBitwiseShiftError do not gate the shift count with "
+                    "isEnabled(value, false) and grade it with value->errorSeverity() (%s)" % ("it reports Severity::error unconditionally again: F04a" if v1 == "0" else "unrecognised shape"))
     ok2 = res.oblig("translate:arrayIndexError-grades-every-index-value", v2 == "1", "translation",
                     "" if v2 == "1" else "lib/checkbufferoverrun.cpp: arrayIndexError / negativeIndexError do not grade by every index value "
                     "(%s)" % ("severity and id come from the single value `index` again: F04c" if v2 == "0" else "unrecognised shape"))
